@@ -28,12 +28,30 @@ contract(f"{LB}::BaseLoss._check_coordinate_filters", params={"num_coords": "int
                                                 "len(self.coordinate_filters) != num_coords"}],
          ensures=["len(result) == num_coords"], modifies=[])
 
-contract(f"{LB}::BaseLoss._filter_data", trusted=True,
+# coordinate i of the result is the i-th filter applied member by member to sim_data_ensemble[:, :, i]
+# (filt / filt_len: the user filter as an uninterpreted pure function of the filter object and the series it is given)
+_FILTERED = (
+    "implies(filters[i] is None, {X}.shape[0] == sim_data_ensemble.shape[0] and {X}.shape[1] == sim_data_ensemble.shape[1] and "
+    "forall(range(0, sim_data_ensemble.shape[0]), lambda j: forall(range(0, sim_data_ensemble.shape[1]), lambda t: "
+    "{X}[j, t] == sim_data_ensemble[j, t, i]))) and "
+    "implies(filters[i] is not None, {X}.shape[0] == sim_data_ensemble.shape[0] and "
+    "forall(range(0, sim_data_ensemble.shape[0]), lambda j: forall(range(0, {X}.shape[1]), lambda t: "
+    "{X}[j, t] == filt(filters[i], sim_data_ensemble[j, :, i], t))))")
+contract(f"{LB}::BaseLoss._filter_data",
          params={"filters": "seq[opt[opaque:Filter]]", "sim_data_ensemble": "arr3[real]"}, returns="arr3[real]",
-         ensures=["result.shape[0] == len(filters)"], modifies=[], props=["C08", "C07"],
-         notes="ASSUMED: coordinate i of the result is the i-th filter applied member by member to "
-               "sim_data_ensemble[:, :, i] (user callables are outside the subset); frame clause by the C08 analysis, "
-               "content by the bounded stand-in C08/base-class-laws")
+         requires=["len(filters) >= 1", "sim_data_ensemble.shape[0] >= 1", "len(filters) == sim_data_ensemble.shape[2]"],
+         # filters that return series of different lengths make np.array ragged: NumPy raises ValueError
+         may_raise=["ValueError"],
+         ensures=["result.shape[0] == len(filters)",
+                  "forall(range(0, len(filters)), lambda i: " + _FILTERED.format(X="result[i]") + ")"],
+         modifies=[], props=["C08", "C07"],
+         notes="user filters are uninterpreted pure functions (filt); coordinates whose filters return series of "
+               "different lengths make np.array ragged - outside the subset (equal shapes assumed by the np.array model)")
+loop_invariant(f"{LB}::BaseLoss._filter_data", 1, over="enumerate(filters)", var="fi",
+               locals={"filtered_data": "arr2[real]"},
+               inv=["len(filtered_data) == fi",
+                    "forall(range(0, fi), lambda i: " + _FILTERED.format(X="filtered_data[i]") + ")"],
+               props=["C08"])
 
 contract(f"{LB}::BaseLoss.compute_loss_1d", abstract=True,
          params={"sim_data_ensemble": "arr2[real]", "real_data": "arr1[real]"}, returns="real",
@@ -42,7 +60,9 @@ contract(f"{LB}::BaseLoss.compute_loss_1d", abstract=True,
 
 contract(f"{LB}::BaseLoss.compute_loss",
          params={"sim_data_ensemble": "arr3[real]", "real_data": "arr2[real]"}, returns="real",
-         requires=["real_data.shape[1] >= 1"], props=["C08", "C07", "C02", "C11"],
+         # data of compatible shape: one simulated coordinate per real coordinate, at least one ensemble member
+         requires=["real_data.shape[1] >= 1", "sim_data_ensemble.shape[2] == real_data.shape[1]",
+                   "sim_data_ensemble.shape[0] >= 1"], props=["C08", "C07", "C02", "C11"],
          raises=[{"exc": "ValueError", "when": "self.coordinate_weights is not None and "
                                                 "len(self.coordinate_weights) != real_data.shape[1]"},
                  {"exc": "ValueError", "when": "self.coordinate_filters is not None and "
